@@ -432,13 +432,29 @@ def _case(draw, tier, cell=None):
     desc = {
         'space': sd, 'func': fd, 'mode': mode,
         'sigma': draw(_sigma(kinds, rsp, exp_type, nparts)),
-        'x': draw(zoo.vecs(n, scale=scale)),
-        'y': draw(zoo.vecs(n, scale=scale)),
+        'x': draw(_point(n, scale, cell is not None)),
+        'y': draw(_point(n, scale, cell is not None)),
         'xmode': draw(st.sampled_from(['generic', 'generic', 'generic',
                                        'inside', 'on', 'sparse', 'near'])),
         'seed': draw(st.integers(0, 2 ** 31 - 1)),
     }
+    if tier == 'quick':
+        # part of the case: fewer numerical-minimiser probes (see
+        # `scipy_probes`); absent = full effort
+        desc['effort'] = 'quick'
     return desc
+
+
+@st.composite
+def _point(draw, n, scale, seeded):
+    """x / y data: explicit entries (shrinkable, palette values hit kinks
+    and thresholds exactly) in the random part, a seeded generic vector in
+    the fixed sweep (one draw instead of n: the sweep is generated serially
+    in the parent process)."""
+    if not seeded:
+        return draw(zoo.vecs(n, scale=scale))
+    return {'gen': {'seed': draw(st.integers(0, 2 ** 31 - 1)),
+                    'scale': float(scale), 'kind': 'normal'}}
 
 
 def strategy(tier):
@@ -594,7 +610,7 @@ def probes(pb, rng, tier_k=1):
     return zs
 
 
-def scipy_probes(pb, rng):
+def scipy_probes(pb, rng, effort='full'):
     """Numerical minimiser of the reference objective (dimension <= 4);
     fixed starts, fixed iteration caps.  Every returned point is just
     another probe."""
@@ -610,12 +626,16 @@ def scipy_probes(pb, rng):
     starts = [p + 0.05 * scale * np.ones(n),
               node.retract(x) + 0.01 * scale * np.arange(1, n + 1),
               node.retract(np.zeros(n)) + 0.1 * node.typ()]
+    if effort == 'quick':
+        # quick tier: one simplex search with a third of the iterations
+        starts = starts[:1]
     out = []
     for i, z0 in enumerate(starts):
         method = 'Powell' if i == 2 else 'Nelder-Mead'
         opts = ({'maxiter': 60 * n, 'xtol': 1e-10, 'ftol': 1e-14}
                 if method == 'Powell' else
-                {'maxiter': 200 * n, 'xatol': 1e-10, 'fatol': 1e-14})
+                {'maxiter': (60 if effort == 'quick' else 200) * n,
+                 'xatol': 1e-10, 'fatol': 1e-14})
         try:
             res = minimize(obj, z0, method=method, options=opts)
         except Exception:  # noqa  (a failed probe search is not a verdict)
@@ -730,23 +750,9 @@ def _run_case(desc):
                                                         inner.detail))
         parts = v.signature.split('|')
         parts[2] = 'rule:{}@{}'.format(zoo.rule_name(fd), desc['mode'])
-        if _negative_scaling_of_linear(desc, v):
-            parts[2] = 'linear*neg.convex_conj'
         raise Violation('|'.join(parts),
                         '[{}; operands pass on their own] {}'.format(
                             zoo.site_of(fd), v.detail))
-
-
-def _negative_scaling_of_linear(desc, v):
-    """The library itself produced ``s * f`` with s < 0 for a functional it
-    flags as linear (f * s, or the conjugate rule (f * s)* = f* * (1/s)) and
-    then refused its convex conjugate (known for C08: the proximal of such
-    a product is fine), although the descriptor contains no negative left
-    multiplication of a non-linear functional."""
-    return ('|crash:ValueError|' in v.signature and
-            'scaling with nonpositive values have no convex conjugate'
-            in v.detail and desc['mode'] == 'functional' and
-            zoo.expected_rejection(desc['func']) is None)
 
 
 def _sub_cases(desc):
@@ -799,7 +805,7 @@ def _oscillation(pb, rng):
     return osc
 
 
-def _certify(ref, pv, xv, sigma_flat, rng, ctx, notes):
+def _certify(ref, pv, xv, sigma_flat, rng, ctx, notes, effort='full'):
     """Feasibility of p and the optimality certificate on all probes;
     raises Violation (clauses 'infeasible' / 'certificate')."""
     amb, sig_eff = R.ambient(ref, pv, xv, sigma_flat)
@@ -836,7 +842,7 @@ def _certify(ref, pv, xv, sigma_flat, rng, ctx, notes):
         pb.osc = _oscillation(pb, rng)
         zs = probes(pb, rng)
         if node.sp.size <= 4:
-            zs += scipy_probes(pb, rng)
+            zs += scipy_probes(pb, rng, effort)
             used_scipy = True
         worst = None
         for z in zs:
@@ -969,7 +975,8 @@ def _run_tree(desc):
     notes = {}
     # ---- (1)+(2) feasibility and optimality certificate ------------------
     rng = np.random.RandomState(int(desc['seed']) % (2 ** 32))
-    cert = _certify(ref, pv, xv, sigma_flat, rng, ctx, notes)
+    effort = desc.get('effort', 'full')
+    cert = _certify(ref, pv, xv, sigma_flat, rng, ctx, notes, effort)
     amb, sig_eff = cert['amb'], cert['sig_eff']
     problems = cert['problems']
     nprobe, nfinite, used_scipy = (cert['nprobe'], cert['nfinite'],
@@ -1008,7 +1015,7 @@ def _run_tree(desc):
         try:
             _certify(ref, rv, xv, sigma_flat,
                      np.random.RandomState(int(desc['seed']) % (2 ** 32)),
-                     ctx, {})
+                     ctx, {}, effort)
         except Violation as v:
             raise Violation(
                 _sig(style, *ctx),
